@@ -48,12 +48,14 @@ type scenario struct {
 	// how the error answer is rendered: verbose error bodies are negotiated with the client's Accept header
 	Verbose bool
 	Accept  string
+	// the level heimdall logs on ("" = logging disabled): a setting of the operator which must not matter
+	LogLevel string
 }
 
 func (s scenario) String() string {
 	var sb strings.Builder
 
-	fmt.Fprintf(&sb, "%s via %s (verbose=%v accept=%q): ", s.Source, s.Entry, s.Verbose, s.Accept)
+	fmt.Fprintf(&sb, "%s via %s (verbose=%v accept=%q log=%q): ", s.Source, s.Entry, s.Verbose, s.Accept, s.LogLevel)
 
 	for _, st := range s.Steps {
 		fmt.Fprintf(&sb, "[%s %s%s", st.Kind[:5], st.Real, st.Outcome)
@@ -103,6 +105,7 @@ func genScenario(t *rapid.T) scenario {
 	}
 
 	s.Verbose = rapid.Bool().Draw(t, "verboseErrors")
+	s.LogLevel = rapid.SampledFrom([]string{"", "", "trace", "debug", "info", "error"}).Draw(t, "logLevel")
 	s.Accept = rapid.SampledFrom([]string{"", "", "*/*", "application/json", "text/html;q=0.5, application/xml", "image/png", "application/pdf;q=0.9, image/*", "application/",
 		"garbage"}).Draw(t, "accept")
 
@@ -295,7 +298,7 @@ func build(s scenario) (*vkit.World, error) {
 		conf.Default = &config.DefaultRule{Execute: execute, ErrorHandler: onError}
 	}
 
-	w, err := vkit.NewWorld(vkit.WorldOpts{Conf: conf, Mode: mode})
+	w, err := vkit.NewWorld(vkit.WorldOpts{Conf: conf, Mode: mode, LogLevel: s.LogLevel})
 	if err != nil {
 		return nil, err
 	}
@@ -423,6 +426,7 @@ func TestPositiveAnswerOnlyAfterCompletePipeline(t *testing.T) {
 		vkit.S.Label("entry=" + string(s.Entry))
 		vkit.S.Label("source=" + s.Source)
 		vkit.S.LabelIf(s.Verbose && s.Accept != "", "verbose_errors_with_accept_header")
+		vkit.S.Label("log_level=" + s.LogLevel)
 		vkit.S.Label(fmt.Sprintf("model_allows=%v", nec))
 		vkit.S.LabelIf(nec && certain && resp.Positive, "converse:model_allows_and_allowed")
 		vkit.S.LabelIf(nec && certain && !resp.Positive && !(s.Entry == vkit.EntryProxy && s.Source == "default"), "converse:model_allows_but_denied")
